@@ -8,6 +8,13 @@ Sub-checks
   suffstats             skyride / skygrid: -sum ss_j/theta_j - sum c_j log theta_j = log_prob
   block_update          the quantities GMRFPiecewiseCoalescentBlockUpdatingOperator takes from the
                         two models give the derivative / curvature of the densities the models report
+  gmrf_history          one GMRF + GMRFGammaIntegrated sharing field / weights / tree: 2-3 rounds of updates
+                        (field, precision, weights, tree heights or ratios / root height; assignment or
+                        in-place + fire_parameter_changed), the published quantities taken in a drawn order
+                        and subset, every relation re-asserted at the current values
+  coalescent_history    one operator + coalescent + GMRF + integrated constant coalescent on one tree:
+                        rounds of updates of log population sizes, precision, weights, node heights; the
+                        statistics / density / gradient / curvature / matrix relations after every round
 """
 import math
 
@@ -38,7 +45,13 @@ RULE = (
     "the first coalescence and beyond the root, or a cutoff (regular grid); a grid point never equals a "
     "coalescent time. Non-trivial: gmrf* = field length >= 3 with a non-constant field; coalescent_integrated "
     "= n >= 3; suffstats / block_update = n >= 3 and (heterochronous or a grid point strictly inside the "
-    "tree). Distinct = variant/class, sizes, batch shape, options and the rounded numeric content."
+    "tree). Distinct = variant/class, sizes, batch shape, options and the rounded numeric content. "
+    "Histories (gmrf_history, coalescent_history): the same generators plus 2-3 rounds of 1-2 updates each "
+    "(parameter drawn among field / precision / weights / internal heights (scaled by factors >= 1, so the tree "
+    "stays valid) / ratios in [0.05,0.95] / root height above the oldest tip / log population sizes; route drawn "
+    "among assignment of .tensor and in-place change + fire_parameter_changed); which published quantities are "
+    "read after a round and in which order is drawn too (the last round reads all); distinct additionally by the "
+    "sequence of (parameter, route)."
 )
 ASSUMPTIONS = [
     "tolerance 1e-9 relative (floor 1); for quantities formed with the published matrix (x'Qx, Q x) the "
@@ -56,6 +69,13 @@ ASSUMPTIONS = [
     "(gradient, curvature, matrix after a precision update); the Metropolis-Hastings ratio itself is C15's; "
     "skygrid is exercised unbatched there (batched skygrid statistics are covered by suffstats)",
     "sampling dates are given as ages (min 0); calendar dates are C02/C06's subject",
+    "histories: ratio-parameterised trees use the documented ratio -> height map (bound + ratio * (parent - bound)), "
+    "re-implemented in vt/gen/coal.py and compared with torchtree on 200 trees while building the check; rounds in "
+    "which three sorted heights come within 1e-6 of the root height of each other only assert the relation "
+    "between the two published quantities, not the ones that need oracle weights (ill-conditioned weights)",
+    "histories: in coalescent_history the log population sizes are built with requires_grad (autograd of the "
+    "reported densities is the reference for the operator's gradient); toggling the flag would itself notify the "
+    "listeners and hide stale caches",
 ]
 
 EPS = 2.220446049250313e-16
@@ -203,31 +223,51 @@ def body_gmrf(c):
         check_tree(model.tree_model, c["g"])
     ws = [gmrf_row_weights(c, r) for r in range(rows)]
     res = gmrf_res(c, "GMRF", ws)
-    val = arr(model())
-    Q = arr(model.precision_matrix())
+    return rel_gmrf(res, model, c, ws)
+
+
+def rel_gmrf(res, model, c, ws, observe=("density", "matrix"), oracle_ok=True):
+    """the GMRF relations at the current values described by c (x, tau, weights / heights);
+    `observe` = which of the two published quantities are taken, in which order"""
+    n, B = c["n"], c["B"]
+    rows = B or 1
+    val = Q = None
+    for what in observe:
+        if what == "density":
+            val = arr(model())
+        elif what == "matrix":
+            Q = arr(model.precision_matrix())
     bshape = () if B is None else (B,)
-    if val.size != rows or val.shape[-1:] != (1,):
+    if val is not None and (val.size != rows or val.shape[-1:] != (1,)):
         return res.fail("shape", {"value_shape": list(val.shape), "expected": list(bshape + (1,))})
-    if Q.shape != bshape + (n, n):
+    if Q is not None and Q.shape != bshape + (n, n):
         return res.fail("pubQ_shape", {"shape": list(Q.shape), "expected": list(bshape + (n, n))})
-    val = val.reshape(rows)
-    Q = Q.reshape(rows, n, n)
+    if val is not None:
+        val = val.reshape(rows)
+    if Q is not None:
+        Q = Q.reshape(rows, n, n)
     for r in range(rows):
         x = c["x"][r]
         tau = c["tau"][r if c["tau_batched"] else 0]
         w = ws[r]
-        d = {"row": r, "tau": tau, "value": float(val[r])}
-        if not (np.isfinite(val[r]) and np.all(np.isfinite(Q[r]))):
+        d = {"row": r, "tau": tau}
+        if val is not None:
+            d["value"] = float(val[r])
+        if (val is not None and not np.isfinite(val[r])) or (Q is not None and not np.all(np.isfinite(Q[r]))):
             res.fail("nonfinite", d)
             continue
         # (1) the density is the documented one
-        ref = og.gmrf_logpdf(x, tau, w)
-        if not close(val[r], ref):
-            res.fail("definition", dict(d, expected=ref))
+        if val is not None and oracle_ok:
+            ref = og.gmrf_logpdf(x, tau, w)
+            if not close(val[r], ref):
+                res.fail("definition", dict(d, expected=ref))
         # (2) the density is the Gaussian form of the matrix the model publishes
-        qref, mag = og.quadform_logpdf(x, Q[r], tau)
-        if not close(val[r], qref, 8 * EPS * mag):
-            res.fail("pubQ_values:density", dict(d, from_published_matrix=qref, weights=w[:6].tolist()))
+        if val is not None and Q is not None:
+            qref, mag = og.quadform_logpdf(x, Q[r], tau)
+            if not close(val[r], qref, 8 * EPS * mag):
+                res.fail("pubQ_values:density", dict(d, from_published_matrix=qref, weights=w[:6].tolist()))
+        if Q is None:
+            continue
         # (3) documented structure of the published matrix
         q = Q[r]
         scale = np.max(np.abs(q))
@@ -243,6 +283,8 @@ def body_gmrf(c):
             bad.append("sign pattern")
         if bad:
             res.fail("pubQ_structure", dict(d, problems=bad, Q=q[:4, :4].tolist()))
+        if not oracle_ok:
+            continue
         expect = tau * og.gmrf_structure(w)
         err = np.max(np.abs(q - expect) / np.maximum(np.abs(expect), 1e-300 + 1e-13 * np.max(np.abs(expect))))
         if not err <= TOL:
@@ -266,6 +308,12 @@ def body_gmrf_integrated(c):
         check_tree(model.tree_model, c["g"])
     ws = [gmrf_row_weights(c, r) for r in range(rows)]
     res = gmrf_res(c, "GMRFGammaIntegrated", ws)
+    return rel_gmrf_integrated(res, model, c, ws)
+
+
+def rel_gmrf_integrated(res, model, c, ws):
+    B = c["B"]
+    rows = B or 1
     val = arr(model())
     bshape = () if B is None else (B,)
     if val.size != rows or val.shape[-1:] != (1,):
@@ -310,6 +358,13 @@ def body_coalint(c):
         labels=(band(g["n"] - 1 if g["n"] > 2 else 2), "hetero" if hetero else "iso", "batch[]" if B is None else "batch[B]"),
         tags={"cls": "ConstantCoalescentIntegratedModel", "batched": B is not None, "hetero": hetero},
     )
+    return rel_coalint(res, model, c)
+
+
+def rel_coalint(res, model, c):
+    """c: g (sampling times), B, heights_rows (current coalescent times per row, or None: g['coal']), alpha, beta"""
+    g, B = c["g"], c["B"]
+    rows = B or 1
     val = arr(model())
     bshape = () if B is None else (B,)
     if val.size != rows or val.shape[-1:] != (1,):
@@ -456,6 +511,14 @@ def body_suff(c):
     if c["form"] == "tree":
         check_tree(model.tree_model, g)
     res = piecewise_res(c, "suff")
+    return rel_suff(res, model, c)
+
+
+def rel_suff(res, model, c):
+    """statistics / log_prob relations at the current values (theta, heights_rows or g['coal'])"""
+    g, B, m = c["g"], c["B"], c["m"]
+    rows = B or 1
+    theta = c["theta"]
     lp = arr(model())
     bshape = () if B is None else (B,)
     if lp.size != rows or lp.shape[-1:] != (1,):
@@ -509,10 +572,11 @@ def block_cases(draw):
     return c
 
 
-def block_specs(c):
+def block_specs(c, requires_grad=False):
     B = c["B"]
     gam = c["gamma"] if B is not None else c["gamma"][0]
-    theta = {"id": "theta", "type": "TransformedParameter", "transform": "torch.distributions.ExpTransform", "x": tt.P("theta.log", gam)}
+    tl = tt.P("theta.log", gam, requires_grad=True) if requires_grad else tt.P("theta.log", gam)
+    theta = {"id": "theta", "type": "TransformedParameter", "transform": "torch.distributions.ExpTransform", "x": tl}
     coalescent = coalescent_spec(c, theta)
     gm = {"id": "gmrf", "type": "GMRF", "x": "theta.log",
           "precision": tt.P("gmrf.precision", [[t] for t in c["tau"]] if B is not None else [c["tau"][0]])}
@@ -554,6 +618,14 @@ def body_block(c):
     unit = bool(all(np.all(w == 1.0) for w in ws))
     res.tags.update({"gmrf": "GMRF", "variant": c["variant"], "unit_weights": unit, "bucket": "%s+GMRF/%s" % (c["kind"], c["variant"])})
     res.labels = res.labels + ("gmrf:" + c["variant"],)
+    return rel_block(res, op, dic, c, ws)
+
+
+def rel_block(res, op, dic, c, ws, toggle_grad=True, precision_update=True):
+    """relations between what the operator takes from the two models and the densities they
+    report, at the current values described by c (gamma, tau, weights, heights)"""
+    g, B, m = c["g"], c["B"], c["m"]
+    rows = B or 1
     gmrf, coalescent = op.gmrf, op.coalescent
     field = dic["theta.log"]
     bshape = () if B is None else (B,)
@@ -574,12 +646,16 @@ def body_block(c):
         return res
 
     # ---- derivatives of the densities the models report (autograd of their own outputs)
-    field.requires_grad = True
+    # (single-shot check: the flag is switched on and off here, which notifies the listeners;
+    # histories build the parameter with requires_grad so that no notification is sent)
+    if toggle_grad:
+        field.requires_grad = True
     lp_g = gmrf()
-    (grad_g,) = torch.autograd.grad(lp_g.sum(), field.tensor)
+    (grad_g,) = torch.autograd.grad(lp_g.sum(), field.tensor, retain_graph=True)
     lp_c = coalescent()
-    (grad_c,) = torch.autograd.grad(lp_c.sum(), field.tensor)
-    field.requires_grad = False
+    (grad_c,) = torch.autograd.grad(lp_c.sum(), field.tensor, retain_graph=True)
+    if toggle_grad:
+        field.requires_grad = False
     grad_g = arr(grad_g).reshape(rows, m)
     grad_c = arr(grad_c).reshape(rows, m)
 
@@ -630,6 +706,8 @@ def body_block(c):
         if Jf.shape != (m, m) or not np.allclose(Jf, J + Jd, rtol=1e-12, atol=0.0):
             res.fail("jacobian_sum", {"row": r, "full": Jf[:3, :3].tolist() if Jf.ndim == 2 else None})
 
+    if not precision_update:
+        return res
     # ---- the operator assigns a proposed precision and takes the matrix again
     new = c["new_tau"]
     gmrf.precision.tensor = tt.T([[t] for t in new] if B is not None else [new[0]])
@@ -650,6 +728,305 @@ def body_block(c):
         refd = og.gmrf_logpdf(c["gamma"][r], new[r], ws[r]) if m >= 2 else 0.0
         if not close(lp2[r], refd):
             res.fail("definition_after_update", {"row": r, "value": float(lp2[r]), "expected": refd})
+    return res
+
+
+# =========================================================================== histories
+# One set of objects per case; rounds of updates through the public interface (assignment of
+# `.tensor`, or in-place modification followed by fire_parameter_changed), every relation
+# re-asserted at the current values after each round.
+HOWS = ["assign", "inplace"]
+
+
+def apply_update(dic, pid, values, how):
+    p = dic[pid]
+    new = tt.T(values)
+    if tuple(new.shape) != tuple(p.tensor.shape):
+        raise HarnessError("history update of %s changes the shape %s -> %s" % (pid, tuple(p.tensor.shape), tuple(new.shape)))
+    if how == "assign":
+        if p.requires_grad:
+            new.requires_grad_(True)
+        p.tensor = new
+    else:
+        with torch.no_grad():
+            p.tensor[...] = new
+        p.fire_parameter_changed()
+
+
+def annotate(res, k0, rnd_index, updates):
+    for f in res.fails[k0:]:
+        f.detail["round"] = rnd_index
+        f.detail["updates_before"] = ["%s:%s" % (u["what"], u["how"]) for u in updates]
+
+
+def shaped(rows_values, batched, scalar_rows=False):
+    """tensor content of a parameter from per-row values"""
+    if scalar_rows:
+        return [[v] for v in rows_values] if batched else [rows_values[0]]
+    return rows_values if batched else rows_values[0]
+
+
+OBS_GMRF = [["density", "matrix", "integrated"], ["matrix", "density", "integrated"], ["matrix"], ["density"],
+            ["matrix", "integrated"], ["integrated", "density"], ["matrix", "density"]]
+
+
+@st.composite
+def gmrf_history_cases(draw):
+    c = draw(gmrf_cases(integrated=True))
+    n, B, variant = c["n"], c["B"], c["variant"]
+    rows = B or 1
+    c["tau_batched"] = bool(B is not None and draw(st.booleans()))
+    c["tau"] = [draw(logu(1e-4, 1e4)) for _ in range(rows if c["tau_batched"] else 1)]
+    options = ["field", "field", "precision"]
+    if variant == "weighted":
+        options += ["weights", "weights"]
+    if variant == "time_aware":
+        g = c["g"]
+        c["tree_batched"] = "heights_rows" in c
+        trows = rows if c["tree_batched"] else 1
+        c["tree_kind"] = draw(st.sampled_from(["heights", "ratios"]))
+        if c["tree_kind"] == "ratios":
+            c.pop("heights_rows", None)
+            c["ratios"] = [[draw(fl(0.05, 0.95)) for _ in range(g["n"] - 2)] for _ in range(trows)]
+            c["root_height"] = [max(g["samp"]) + draw(logu(1e-2, 10.0)) for _ in range(trows)]
+            options += ["ratios", "ratios", "root_height", "ratios", "ratios", "root_height"]
+        else:
+            options += ["heights"] * 6
+    rounds = []
+    for _ in range(draw(st.integers(2, 3))):
+        ups = []
+        for _ in range(draw(st.sampled_from([1, 1, 2]))):
+            what = draw(st.sampled_from(options))
+            how = draw(st.sampled_from(HOWS))
+            if what == "field":
+                v = draw(fields(n, rows))
+            elif what == "precision":
+                v = [draw(logu(1e-4, 1e4)) for _ in range(len(c["tau"]))]
+            elif what == "weights":
+                v = [draw(logu(1e-2, 1e2)) for _ in range(n - 1)]
+            elif what == "heights":
+                v = [[t * s for t in c["g"]["coal"]] for s in
+                     [draw(st.sampled_from([1.0, 1.25, 2.0, 3.5])) * draw(fl(1.0, 1.1)) for _ in range(trows)]]
+            elif what == "ratios":
+                v = [[draw(fl(0.05, 0.95)) for _ in range(c["g"]["n"] - 2)] for _ in range(trows)]
+            else:
+                v = [max(c["g"]["samp"]) + draw(logu(1e-2, 10.0)) for _ in range(trows)]
+            ups.append({"what": what, "how": how, "values": v})
+        rounds.append({"updates": ups, "observe": draw(st.sampled_from(OBS_GMRF))})
+    c["observe0"] = draw(st.sampled_from(OBS_GMRF))
+    c["rounds"] = rounds
+    return c
+
+
+def _tree_state(c, cur):
+    """current coalescent times in the convention of gmrf_row_weights (heights_rows for a batched
+    tree, g['coal'] otherwise); returns whether the oracle heights are well conditioned"""
+    g = c["g"]
+    if c["tree_kind"] == "ratios":
+        hs = [gc.heights_from_ratios(g, r, h) for r, h in zip(cur["ratios"], cur["root_height"])]
+    else:
+        hs = cur["_heights"]
+    ok = True
+    for h in hs:
+        srt = np.sort(np.concatenate(([0.0], h)))
+        d = np.diff(srt)
+        if np.min(d[:-1] + d[1:]) <= 1e-6 * srt[-1]:
+            ok = False  # three nearly equal heights: the weights amplify the rounding of the heights
+    if c["tree_batched"]:
+        cur["heights_rows"] = hs
+    else:
+        cur.pop("heights_rows", None)
+        cur["g"] = dict(g, coal=list(hs[0]))
+    return ok
+
+
+def body_gmrf_history(c):
+    n, B, variant = c["n"], c["B"], c["variant"]
+    rows = B or 1
+    cur = dict(c)
+    gm = {"id": "gmrf", "type": "GMRF", "x": tt.P("field", shaped(c["x"], B is not None)),
+          "precision": tt.P("gmrf.precision", shaped(c["tau"], c["tau_batched"], True))}
+    gi = {"id": "gmrf.integrated", "type": "GMRFGammaIntegrated", "x": "field", "shape": c["shape"], "rate": c["rate"]}
+    if variant == "weighted":
+        gm["weights"] = tt.P("weights", c["weights"])
+        gi["weights"] = "weights"
+    elif variant == "time_aware":
+        if c["tree_kind"] == "ratios":
+            gm["tree_model"] = gc.ratio_tree_spec(c["g"], c["ratios"], c["root_height"], c["tree_batched"])
+        else:
+            cur["_heights"] = c["heights_rows"] if c["tree_batched"] else [c["g"]["coal"]]
+            gm["tree_model"] = gc.time_tree_spec(c["g"], c["heights_rows"] if c["tree_batched"] else None)
+        gi["tree_model"] = "tree"
+        if c["rescale"] is not None:
+            gm["rescale"] = gi["rescale"] = c["rescale"]
+    dic = {}
+    gmrf, _ = tt.build(gm, dic)
+    gint, _ = tt.build(gi, dic)
+    ok = _tree_state(c, cur) if variant == "time_aware" else True
+    if variant == "time_aware":
+        check_tree(gmrf.tree_model, c["g"])
+    ws0 = [gmrf_row_weights(cur, r) for r in range(rows)]
+    res = gmrf_res(c, "GMRF", ws0)
+    whats = sorted(set(u["what"] for rd in c["rounds"] for u in rd["updates"]))
+    res.key = res.key + (tuple("%s:%s" % (u["what"], u["how"]) for rd in c["rounds"] for u in rd["updates"]),
+                         rnd([u["values"] for rd in c["rounds"] for u in rd["updates"]][0]))
+    res.labels = res.labels + tuple("update:" + w for w in whats) + ("rounds=%d" % len(c["rounds"]),) + \
+        ((("tree:" + c["tree_kind"]),) if variant == "time_aware" else ())
+    res.tags["aspect"] = "history"
+
+    def observe(order, k, ups, ok):
+        k0 = len(res.fails)
+        ws = [gmrf_row_weights(cur, r) for r in range(rows)]
+        sub = tuple(o for o in order if o != "integrated")  # density / matrix, in the drawn order
+        if "integrated" in order and order[0] == "integrated" and ok:
+            rel_gmrf_integrated(res, gint, cur, ws)
+        if sub:
+            rel_gmrf(res, gmrf, cur, ws, observe=sub, oracle_ok=ok)
+        if "integrated" in order and order[0] != "integrated" and ok:
+            rel_gmrf_integrated(res, gint, cur, ws)
+        annotate(res, k0, k, ups)
+
+    observe(c["observe0"], 0, [], ok)
+    ids = {"field": "field", "precision": "gmrf.precision", "weights": "weights", "heights": "tree.heights",
+           "ratios": "tree.ratios", "root_height": "tree.root_height"}
+    for k, rd in enumerate(c["rounds"]):
+        for u in rd["updates"]:
+            w, v = u["what"], u["values"]
+            if w == "field":
+                cur["x"] = v
+                t = shaped(v, B is not None)
+            elif w == "precision":
+                cur["tau"] = v
+                t = shaped(v, c["tau_batched"], True)
+            elif w == "weights":
+                cur["weights"] = v
+                t = v
+            elif w == "heights":
+                cur["_heights"] = v
+                # node-index order of the tensor: through the same routine that built the tree
+                t = shaped([gc.tree_of(c["g"], row)[1] for row in v], c["tree_batched"])
+            elif w == "ratios":
+                cur["ratios"] = v
+                t = shaped(v, c["tree_batched"])
+            else:
+                cur["root_height"] = v
+                t = shaped(v, c["tree_batched"], True)
+            apply_update(dic, ids[w], t, u["how"])
+        if variant == "time_aware":
+            ok = _tree_state(c, cur)
+        last = k == len(c["rounds"]) - 1
+        observe(OBS_GMRF[k % 2] if last else rd["observe"], k + 1, rd["updates"], ok)
+    return res
+
+
+# ---------------------------------------------------------------- coalescent side
+@st.composite
+def coal_history_cases(draw):
+    kind = draw(st.sampled_from(["skyride", "skygrid"]))
+    g = draw(st.one_of(gc.genealogies(3, 8), gc.genealogies(3, 30)))
+    n = g["n"]
+    m = n - 1 if kind == "skyride" else draw(sizes(2, 30))
+    B = draw(batches(m))
+    rows = B or 1
+    form = draw(st.sampled_from(["times", "tree", "tree"]))
+    c = {"kind": kind, "g": g, "m": m, "B": B, "form": form}
+    c["tree_batched"] = bool(form == "tree" and B is not None and draw(st.booleans()))
+    trows = rows if c["tree_batched"] else 1
+    c["heights_rows"] = draw(height_rows(g, rows)) if c["tree_batched"] else None
+    c["gamma"] = [[draw(fl(-3.0, 6.0)) for _ in range(m)] for _ in range(rows)]
+    variants = ["plain", "plain", "weighted"]
+    if kind == "skyride" and form == "tree":
+        variants += ["time_aware", "time_aware", "time_aware"]
+    c["variant"] = draw(st.sampled_from(variants))
+    if c["variant"] == "weighted":
+        c["weights"] = [draw(logu(1e-2, 1e2)) for _ in range(m - 1)]
+    if c["variant"] == "time_aware":
+        c["rescale"] = draw(st.sampled_from([None, True, False]))
+    c["tau"] = [draw(logu(1e-3, 1e3)) for _ in range(rows)]
+    if form == "tree":
+        c["alpha"] = draw(logu(1e-3, 1e2))
+        c["beta"] = draw(logu(1e-3, 1e2))
+    options = ["theta", "theta", "precision"]
+    if c["variant"] == "weighted":
+        options += ["weights"]
+    if form == "tree":
+        options += ["heights", "heights", "heights"]
+    rounds = []
+    allrows = [list(r) for r in (c["heights_rows"] or [g["coal"]])]
+    for _ in range(draw(st.integers(2, 3))):
+        ups = []
+        for _ in range(draw(st.sampled_from([1, 1, 2]))):
+            what = draw(st.sampled_from(options))
+            how = draw(st.sampled_from(HOWS))
+            if what == "theta":
+                v = [[draw(fl(-3.0, 6.0)) for _ in range(m)] for _ in range(rows)]
+            elif what == "precision":
+                v = [draw(logu(1e-3, 1e3)) for _ in range(rows)]
+            elif what == "weights":
+                v = [draw(logu(1e-2, 1e2)) for _ in range(m - 1)]
+            else:
+                v = [[t * s for t in g["coal"]] for s in
+                     [draw(st.sampled_from([1.0, 1.25, 2.0, 3.5])) * draw(fl(1.0, 1.1)) for _ in range(trows)]]
+                allrows += v
+            ups.append({"what": what, "how": how, "values": v})
+        rounds.append({"updates": ups})
+    c["rounds"] = rounds
+    if kind == "skygrid":
+        c["grid"] = draw(gc.grids(allrows, m, samp=g["samp"]))  # no tie with any state of the history
+    return c
+
+
+def body_coal_history(c):
+    g, B, m = c["g"], c["B"], c["m"]
+    rows = B or 1
+    cur = dict(c)
+    dic = {}
+    op, _ = tt.build(block_specs(c, requires_grad=True), dic)
+    ci = None
+    if c["form"] == "tree":
+        check_tree(op.coalescent.tree_model, g)
+        ci, _ = tt.build({"id": "coalint", "type": "ConstantCoalescentIntegratedModel", "alpha": c["alpha"], "beta": c["beta"], "tree_model": "tree"}, dic)
+    res = piecewise_res(c, "history")
+    whats = sorted(set(u["what"] for rd in c["rounds"] for u in rd["updates"]))
+    res.key = res.key + (c["variant"], tuple("%s:%s" % (u["what"], u["how"]) for rd in c["rounds"] for u in rd["updates"]))
+    res.labels = res.labels + ("gmrf:" + c["variant"], "rounds=%d" % len(c["rounds"])) + tuple("update:" + w for w in whats)
+    res.tags.update({"gmrf": "GMRF", "variant": c["variant"], "aspect": "history", "bucket": "%s+GMRF/%s" % (c["kind"], c["variant"])})
+
+    def observe(k, ups, quad):
+        k0 = len(res.fails)
+        cur["theta"] = [[math.exp(v) for v in row] for row in cur["gamma"]]
+        ws = [block_row_weights(cur, r) for r in range(rows)]
+        # statistics against the density the coalescent reports, then the operator's quantities
+        rel_suff(res, op.coalescent, cur)
+        rel_block(res, op, dic, cur, ws, toggle_grad=False, precision_update=False)
+        # GMRF: density vs the published matrix at the current field / precision / heights
+        gc_ = {"n": m, "B": B, "x": cur["gamma"], "tau": cur["tau"], "tau_batched": B is not None}
+        rel_gmrf(res, op.gmrf, gc_, ws, observe=("matrix", "density") if k % 2 else ("density", "matrix"))
+        if ci is not None and quad:
+            rel_coalint(res, ci, {"g": cur["g"], "B": B if c["tree_batched"] else None, "heights_rows": cur["heights_rows"],
+                                  "alpha": c["alpha"], "beta": c["beta"]})
+        annotate(res, k0, k, ups)
+
+    observe(0, [], True)
+    for k, rd in enumerate(c["rounds"]):
+        for u in rd["updates"]:
+            w, v = u["what"], u["values"]
+            if w == "theta":
+                cur["gamma"] = v
+                apply_update(dic, "theta.log", shaped(v, B is not None), u["how"])
+            elif w == "precision":
+                cur["tau"] = v
+                apply_update(dic, "gmrf.precision", shaped(v, B is not None, True), u["how"])
+            elif w == "weights":
+                cur["weights"] = v
+                apply_update(dic, "weights", v, u["how"])
+            else:
+                if c["tree_batched"]:
+                    cur["heights_rows"] = v
+                else:
+                    cur["g"] = dict(g, coal=list(v[0]))
+                apply_update(dic, "tree.heights", shaped([gc.tree_of(g, row)[1] for row in v], c["tree_batched"]), u["how"])
+        observe(k + 1, rd["updates"], k == len(c["rounds"]) - 1 or any(u["what"] == "heights" for u in rd["updates"]))
     return res
 
 
@@ -722,4 +1099,6 @@ def subchecks(tier):
             pretags=_pre(lambda c: "ConstantCoalescentIntegratedModel")),
         Sub("suffstats", body_suff, strategy=suff_cases, quick=700, thorough=16000, pretags=_pre(lambda c: CLS[c["kind"]])),
         Sub("block_update", body_block, strategy=block_cases, quick=400, thorough=10000, pretags=_pre(lambda c: CLS[c["kind"]])),
+        Sub("gmrf_history", body_gmrf_history, strategy=gmrf_history_cases, quick=240, thorough=5000, pretags=_pre(lambda c: "GMRF")),
+        Sub("coalescent_history", body_coal_history, strategy=coal_history_cases, quick=200, thorough=4000, pretags=_pre(lambda c: CLS[c["kind"]])),
     ]
